@@ -952,8 +952,23 @@ def return_shape(ctx, rr):
             bad = ar[sorted(tuples)[-1]]
         elif 'scalar' in ar and unpacked:
             bad = ar['scalar']
+        # a position that holds the same freshly constructed object in every other return is not None in one of them: callers
+        # dereference it without a test (`history.webentity` after `node, history = follow_lru(...)`)
+        if len(tuples) == 1 and unpacked:
+            k_ = tuples[0]
+            from ..dataflow import single_defs as _sdefs
+            sd_ = _sdefs(P, u)
+            for pos in range(k_):
+                elts = [(r, r.value.elts[pos]) for r in ar[k_]]
+                names = {e.id for _, e in elts if isinstance(e, ast.Name)}
+                nones = [r for r, e in elts if isinstance(e, ast.Constant) and e.value is None]
+                if len(names) == 1 and nones and len(names) + 0 and all(isinstance(e, ast.Name) or (isinstance(e, ast.Constant) and e.value is None) for _, e in elts):
+                    nm = list(names)[0]
+                    d_ = sd_.get(nm)
+                    if isinstance(d_, ast.Call) and any(t.name == '__init__' for t in P.targets(d_)):
+                        bad += nones
         rr.ob(ctx.where(u), '%s returns %s-tuples on every path' % (u.qual, tuples[0]), ok=not bad)
         for r in bad:
-            rr.fail(ctx.finding('R-RETURN-SHAPE', u, r, '%s returns `%s` on this path but a %s-tuple elsewhere, and its callers unpack the result: the path raises TypeError instead of '
-                                'reporting its outcome' % (u.qual, ast.unparse(r)[:40], tuples[0])))
+            rr.fail(ctx.finding('R-RETURN-SHAPE', u, r, '%s returns `%s` on this path but a %s-tuple of (always present) objects elsewhere, and its callers unpack and use the '
+                                'result without a test: the path raises TypeError / AttributeError instead of reporting its outcome' % (u.qual, ast.unparse(r)[:40], tuples[0])))
     rr.require(n, 5, 'functions returning tuples')
